@@ -387,16 +387,20 @@ add("K-sample_reader_buffered_read", ["C07"], D + "k_sample_reader_buffered_read
     stubs=["decode::Decoder::read_frame (reports end of stream)"], timeout=600)
 
 
-vadd("V-part-encoder-filter", ["C01", "C02"],
+vadd("V-part-encoder-filter", ["C01", "C02", "C15"],
      [{"kind": "file", "path": "lemmas.rs"},
       {"kind": "fn", "file": "src/encode.rs", "container": r"fn write_residuals<W: BitWrite>\(", "fn": "best_partitions", "anchor_only": True,
        "expect": [".rchunks(block_size / partition_count)", ".rev()", ".filter(|p| p.len() == partition_count)",
-                  "(0..=block_size.trailing_zeros().min(options.max_partition_order))"]}],
-     ["l_part_encoder_filter", "l_part_total"],
+                  "(0..=block_size", ".trailing_zeros()", ".min(options.max_partition_order)", ".min(MAX_PARTITIONS.ilog2()))",
+                  ".collect::<Option<ArrayVec<_, MAX_PARTITIONS>>>()"]},
+      {"kind": "fn", "file": "src/encode.rs", "container": None, "fn": "write_residuals", "anchor_only": True,
+       "expect": ["const MAX_PARTITIONS: usize = 64;"]}],
+     ["l_part_encoder_filter", "l_part_total", "l_part_capacity", "l_pow2_le_64"],
      "L-PART applied to the encoder's candidate filter (model-level with a syntactic anchor): best_partitions cuts the residuals from the end into chunks of block/2^po, only for po <= trailing_zeros(block) "
      "(so the block divides), and keeps a candidate iff it has exactly 2^po chunks; by the lemma that holds iff order < block/2^po, i.e. iff the layout is the RFC's; "
-     "the four source fragments the lemma was written from must still be present, otherwise the obligation is undecided",
-     ["encode::write_residuals::best_partitions (text anchor)"], domain="bounded", bound="spec-level lemma; link to the code is textual (anchor) plus K-write_res_short_*",
+     "with the order additionally limited to ilog2(MAX_PARTITIONS) = 6 no candidate has more than 64 chunks, the capacity of the buffer they are collected into (l_part_capacity: C15, every documented partition order works); "
+     "the source fragments the lemmas were written from must still be present, otherwise the obligation is undecided",
+     ["encode::write_residuals::best_partitions (text anchor)"], domain="bounded", bound="spec-level lemmas; link to the code is textual (anchors on the candidate range, the chunking, the filter, the collect and the capacity constant)",
      assumes=["std slice::rchunks yields ceil(len / size) chunks with the short one first in reverse order (std, not verified)"])
 
 for h in ["k_stream_sync_after_stray_ff_c6", "k_stream_sync_after_stray_ff_c1", "k_stream_sync_two_candidates_c5", "k_stream_sync_none_c2"]:
@@ -550,3 +554,13 @@ add("K-application_roundtrip", ["C11", "C12"], M + "k_application_roundtrip", ti
 add("K-picture_type_table", ["C11", "C12"], M + "k_picture_type_table", tier="quick", domain="full",
     functions=["metadata::PictureType::from_reader", "metadata::PictureType::to_writer"],
     contract="PICTURE type, all 32-bit codes: Ok iff code <= 20, and the type serialises back to the same code", timeout=200)
+
+
+# generous limits for the obligations whose measured time is above a quarter of their limit (load on the machine varies)
+for _o in OBLIGATIONS:
+    if _o.id in ("K-options_setters", "K-metadata_accessors", "K-channel_mask_from_str_total", "K-cdda_offset_arith_total") or _o.id.startswith("K-chan_seek_"):
+        _o.timeout = max(_o.timeout, 1200)
+    if _o.id.startswith("K-block_iterator_") or _o.id == "K-cdda_offset_from_str_m2":
+        _o.timeout = max(_o.timeout, 3000)
+    if _o.id.startswith("K-dep_read_") or _o.id == "K-application_roundtrip":
+        _o.timeout = max(_o.timeout, 1800)
